@@ -25,7 +25,7 @@ def gen_scenarios(rng, n):
     for s in range(n):
         pl = list(rng.choice(common.LABEL_POOLS))
         rng.shuffle(pl)
-        labels = pl[:4]
+        labels = pl[:6]
         steps = []
         for _ in range(rng.choice([1, 1, 1, 2])):
             gate = rng.choice(cs.GATES)
@@ -33,7 +33,7 @@ def gen_scenarios(rng, n):
             if gate in ("BUFFER", "NOT"):
                 n_ops = 1
             else:
-                n_ops = rng.choice([2, 2, 3, 3, 4, 5]) if geq else rng.choice([1, 2, 2, 3, 3, 4, 5])
+                n_ops = rng.choice([2, 2, 3, 3, 4, 5, 6, 7, 8, 9]) if geq else rng.choice([1, 2, 2, 3, 3, 4, 5, 6, 7, 8, 9])
             ops = [operand(rng, labels) for _ in range(n_ops)]
             a = operand(rng, labels) if geq else None
             steps.append({"mode": "gate", "gate": gate, "geq": geq, "a": a, "ops": ops, "lam": rng.choice([1, 2, 3, 0.5])})
@@ -70,6 +70,6 @@ def run(tier, out, replay=None):
             c02.describe = describe
             c02.check_records(out, wd, recs, owners, scens, "c06", "c06")
         out.assumptions += ["operands are labels of mixed hashable types or boolean expressions (negation, conjunction, disjunction) passed as "
-                            "dict / PUBO whose polynomial the harness defines itself; arities up to 5"]
+                            "dict / PUBO whose polynomial the harness defines itself; arities up to 9 over 6 labels (labels may repeat among operands)"]
     finally:
         common.cleanup(wd)
